@@ -347,6 +347,11 @@ def check_pvalue_formula(ck, method, p, b, m, mt, requested, where, detail):
             ck.violation(dict(clause="exact-formula", method=method, where=where), dict(detail, p=p, expected=float(want), b=b, m=m, m_t=mt))
     else:
         ps = approx_ps_F(b, m, mt)
+        hi = F(b + 1, m + 1)
+        # implied by the integral form (0 <= integral <= 0.5/m_t) and also met by the code's variant:
+        # keeps 'approximate' monitored for regressions while the formula clause is a known finding
+        if not (float(hi - F(1, 2 * mt)) - 1e-12 <= p <= float(hi) + 1e-12):
+            ck.violation(dict(clause="approximate-bounds", where=where), dict(detail, what="'approximate' outside [(b+1)/(m+1) - 0.5/m_t, (b+1)/(m+1)]", p=p, b=b, m=m, m_t=mt))
         if not fclose(p, ps):
             ck.violation(
                 dict(clause="approximate-formula"),
@@ -376,6 +381,16 @@ def run_callback(name, spec, X, Y, cfg, record=True):
     return float(res.distance), float(lg["observed_statistic"]), np.asarray(lg["permuted_statistics"], dtype=float), float(lg["p_value"]), draws
 
 
+def callback_failed(ck, name, spec, X, Y, e, detail):
+    """compare raised with the callback attached: a finding iff the same detector works without it."""
+    try:
+        fresh_distance(name, spec, X, Y)
+    except Exception:  # noqa: BLE001  the detector itself cannot handle this pair (not a C13 matter); counted
+        ck.count("detector_error_" + type(e).__name__)
+        return
+    ck.violation(dict(clause="callback-raises", detector=name), dict(detail, what="compare raises only when the permutation callback is attached", error=repr(e)[:400]))
+
+
 def fresh_distance(name, spec, A, B, override=None):
     sp = dict(spec)
     if override:
@@ -396,9 +411,8 @@ def check_e2e(ck, name, spec, X, Y, cfg, data_kind, collect=None):
     detail = dict(replay_kind="e2e", detector=name, spec=spec, X_ref=np.asarray(X).tolist(), X_test=np.asarray(Y).tolist(), cfg=cfg, data_kind=data_kind)
     try:
         dist, obs, stats, p, draws = run_callback(name, spec, X, Y, cfg)
-    except (ValueError, IndexError, ZeroDivisionError, FloatingPointError) as e:
-        # the detector itself cannot handle this sample pair (not a C13 matter); counted, not judged
-        ck.count("e2e_detector_error_" + type(e).__name__)
+    except Exception as e:  # noqa: BLE001
+        callback_failed(ck, name, spec, X, Y, e, detail)
         return
     pooled = np.concatenate([X, Y])
     requested = cfg["num_permutations"]
@@ -600,7 +614,11 @@ def check_jobs(ck, name, spec, X, Y, cfg, jobs_list):
     runs = []
     for j in jobs_list:
         c = dict(cfg, num_jobs=j)
-        _, obs, stats, p, _ = run_callback(name, spec, X, Y, c, record=False)
+        try:
+            _, obs, stats, p, _ = run_callback(name, spec, X, Y, c, record=False)
+        except Exception as e:  # noqa: BLE001
+            callback_failed(ck, name, spec, X, Y, e, detail)
+            return
         runs.append((j, obs, stats, p))
     ck.case(dict(kind="jobs", detector=name, spec=spec, cfg=cfg, jobs=jobs_list), nontrivial=len(set(np.round(runs[0][2], 12))) > 1,
             key=repr((name, spec, detail["X_ref"], cfg, jobs_list)))
